@@ -12,8 +12,13 @@ Open Scope N_scope.
 Record setup := mkSetup {
   su_p : params;
   su_def : cfg3;                      (* the defaults passed to Config *)
-  su_srcs : list (bool * sv3)         (* per source: implements Watcher?, its initial Value() *)
+  su_srcs : list (bool * sv3);        (* per source: implements Watcher?, its initial Value() *)
+  su_nv : bool                        (* the config type has no Verify method *)
 }.
+
+(* Verify of the harness config (A <= B); a type without the method always passes
+   and no call is ever observed *)
+Definition verifyS (su : setup) (c : cfg3) : bool := su_nv su || verify3 c.
 
 (* ---- projected observables ---- *)
 
@@ -100,10 +105,10 @@ Definition obs_eqb (x y : obs) : bool :=
 Definition csys := sys cfg3 sv3.
 
 Definition cstep (su : setup) : csys -> clabel -> option csys :=
-  step (stack3 (su_def su)) verify3 (su_p su) true true cbcap3.
+  step (stack3 (su_def su)) (verifyS su) (su_p su) true true cbcap3.
 
 Definition cinit (su : setup) : list (cfg3 * bool) * outcome csys :=
-  sys_init (stack3 (su_def su)) verify3 (su_p su) (map snd (su_srcs su)) (map fst (su_srcs su)).
+  sys_init (stack3 (su_def su)) (verifyS su) (su_p su) (map snd (su_srcs su)) (map fst (su_srcs su)).
 
 Definition kind_code (e : errkind) : N := match e with EStack => 0 | EVerify => 1 | ESource => 2 end.
 
@@ -151,11 +156,14 @@ Definition cb_at (c : cb_ctrl cfg3) : N :=
   | CRun _ (OAck _ :: _) => 2    (* cb.ack *)
   end.
 
-Definition obs_of (s : csys) (newlog : list (gevent cfg3 sv3)) : obs :=
-  mkObs (s_value s) (N.of_nat (length (s_cbq s))) (N.of_nat (length (s_ctl s)))
-        (mon_at (s_mon s)) (cb_at (s_cb s)) (flat_map proj_event newlog).
+Definition hide_verify (nv : bool) (e : oevent) : bool :=
+  match e with OVerify _ _ => negb nv | _ => true end.
 
-Definition step_obs (s s' : csys) : obs := obs_of s' (skipn (length (s_log s)) (s_log s')).
+Definition obs_of (nv : bool) (s : csys) (newlog : list (gevent cfg3 sv3)) : obs :=
+  mkObs (s_value s) (N.of_nat (length (s_cbq s))) (N.of_nat (length (s_ctl s)))
+        (mon_at (s_mon s)) (cb_at (s_cb s)) (filter (hide_verify nv) (flat_map proj_event newlog)).
+
+Definition step_obs (nv : bool) (s s' : csys) : obs := obs_of nv s' (skipn (length (s_log s)) (s_log s')).
 
 (* first disagreement: (step index, implementation, model (None: label not enabled in the model)) *)
 Fixpoint replay (su : setup) (s : csys) (steps : list (clabel * obs)) (i : N)
@@ -166,7 +174,7 @@ Fixpoint replay (su : setup) (s : csys) (steps : list (clabel * obs)) (i : N)
       match cstep su s l with
       | None => Some (i, o, None)
       | Some s' =>
-          let m := step_obs s s' in
+          let m := step_obs (su_nv su) s s' in
           if obs_eqb o m then replay su s' r (i + 1) else Some (i, o, Some m)
       end
   end.
@@ -183,10 +191,10 @@ Definition diagnose (c : ccase) : option (N * obs * option obs) :=
   | CoreCase su vl res init steps =>
       let '(mvl, mo) := cinit su in
       let dummy := mkObs (0, mkCfg 0 0 0) 0 0 0 0 [] in
-      if negb (list_eqb verif_eqb vl mvl && (res =? res_code mo)) then Some (1000000, dummy, None)
+      if negb (list_eqb verif_eqb vl (if su_nv su then [] else mvl) && (res =? res_code mo)) then Some (1000000, dummy, None)
       else match mo with
            | Ok s0 =>
-               let m0 := obs_of s0 [] in
+               let m0 := obs_of (su_nv su) s0 [] in
                if obs_eqb init m0 then replay su s0 steps 0 else Some (1000001, init, Some m0)
            | _ => None
            end
@@ -199,7 +207,7 @@ Definition model_agrees (c : ccase) : bool :=
 Definition model_enabled (su : setup) (ls : list clabel) : bool :=
   match snd (cinit su) with
   | Ok s0 =>
-      match run (stack3 (su_def su)) verify3 (su_p su) true true cbcap3 s0 ls with
+      match run (stack3 (su_def su)) (verifyS su) (su_p su) true true cbcap3 s0 ls with
       | Some _ => true
       | None => false
       end
@@ -340,11 +348,12 @@ Fixpoint stores_from (prev : N * cfg3) (vs : list (N * (N * cfg3))) : list (N * 
 Definition stores (init : obs) (st : list istep) : list (N * (N * cfg3)) :=
   stores_from (o_val init) (map (fun x => (i_idx x, o_val (i_obs x))) st).
 
-Definition stores_verified (p : params) (init : obs) (st : list istep) : bool :=
+Definition stores_verified (su : setup) (init : obs) (st : list istep) : bool :=
+  let p := su_p su in
   let from := if p_delay p then first_enable_ok st else Some 0 in
   match from with
   | None => true
-  | Some t => forallb (fun iv => (fst iv <=? t) || verify3 (snd (snd iv))) (stores init st)
+  | Some t => forallb (fun iv => (fst iv <=? t) || verifyS su (snd (snd iv))) (stores init st)
   end.
 
 Fixpoint run_from {A} (f : A -> N) (i : N) (cs : list A) : list (N * N) :=
